@@ -41,9 +41,11 @@ impl Sc for f64 {
 impl Sc for Cmplx {
     const TAG: &'static str = "c";
     fn gen(rng: &mut Rng, zero_pct: usize, kind: usize) -> Cmplx {
+        // purely real (25%) and purely imaginary (12%) values are over-represented: special-case paths of the
+        // complex operators (axis-aligned divisors, ties in one component) live there
         let re = f64::gen(rng, zero_pct, kind);
         let im = if rng.chance(25) { 0.0 } else { f64::gen(rng, zero_pct, kind) };
-        Cmplx::new(re, im)
+        if im != 0.0 && rng.chance(12) { Cmplx::new(0.0, im) } else { Cmplx::new(re, im) }
     }
     fn same(&self, o: &Cmplx) -> bool { bits_eq(self.real, o.real) && bits_eq(self.imag, o.imag) }
     fn is_exact() -> bool { false }
